@@ -27,7 +27,7 @@ pub(super) mod tcp {
         fn try_from(value: &ServerConfig<SslConfig>) -> Result<Self, Self::Error> {
             let kind = value.cipher;
             let (key, identity_keys) = if kind.is_aead_2022() {
-                aead_2022::password_to_keys(&value.password).map_err(|e| anyhow!(e))?
+                aead_2022::configured_keys(&value.password).map_err(|e| anyhow!(e))?
             } else {
                 let key = aead::openssl_bytes_to_key(value.password.as_bytes());
                 (key, Vec::with_capacity(0))
@@ -91,7 +91,7 @@ pub(super) mod udp {
     use octo_squirrel::protocol::address::Address;
     use octo_squirrel::protocol::shadowsocks::Mode;
     use octo_squirrel::protocol::shadowsocks::aead::openssl_bytes_to_key;
-    use octo_squirrel::protocol::shadowsocks::aead_2022::password_to_keys;
+    use octo_squirrel::protocol::shadowsocks::aead_2022::configured_keys;
     use tokio::net::UdpSocket;
     use tokio_util::bytes::BytesMut;
     use tokio_util::codec::Decoder;
@@ -110,7 +110,7 @@ pub(super) mod udp {
     impl<const N: usize> Client<'_, N> {
         pub fn new_static(config: ServerConfig<SslConfig>) -> anyhow::Result<Client<'static, N>> {
             let (key, identity_keys) = if config.cipher.is_aead_2022() {
-                password_to_keys(&config.password).map_err(|e| anyhow!(e))?
+                configured_keys(&config.password).map_err(|e| anyhow!(e))?
             } else {
                 (openssl_bytes_to_key(config.password.as_bytes()), Vec::new())
             };
